@@ -140,6 +140,37 @@ class RecIterC(RecIter):
         self._rec.ev.append(['close', self._id])
 
 
+class RecBox:
+    """a container with close() whose __iter__ returns a separate iterator object: a generator
+    ('gen') or a plain iterator without close ('iter')"""
+
+    def __init__(self, rec, oid, items, inner):
+        self._rec, self._id, self._items, self._inner = rec, oid, items, inner
+
+    def __iter__(self):
+        if self._inner == 'iter':
+            return RecIter(self._rec, self._id, self._items)
+        return self._gen()
+
+    def _gen(self):
+        for it in self._items:
+            self._rec.ev.append(['next', self._id])
+            if it['k'] == 'yield':
+                yield build(it['o'], self._rec)
+            elif it['k'] == 'raise_http':
+                raise build_resp(it['r'], it['err'], self._rec)
+            else:
+                raise Boom('boom')
+
+    def __repr__(self):
+        return '<%s %d>' % (type(self).__name__, self._id)
+
+
+class RecBoxC(RecBox):
+    def close(self):
+        self._rec.ev.append(['close', self._id])
+
+
 class RecWrapper:
     """stand-in for a server's wsgi.file_wrapper (PEP 3333: close() must call the file's close)"""
 
@@ -197,6 +228,8 @@ def build(o, rec):
     if k == 'iter':
         if o.get('list'):
             return [build(it['o'], rec) for it in o['items']]
+        if o.get('box'):
+            return (RecBoxC if o['close'] else RecBox)(rec, o['id'], o['items'], o['box'])
         return (RecIterC if o['close'] else RecIter)(rec, o['id'], o['items'])
     if k == 'other':
         return Thing() if o['v'] == 'object' else OTHERS[o['v']]
@@ -213,6 +246,18 @@ def run_prog(app, h, rec):
             app.response.headers.append(m['n'], m['v'])
         elif m['m'] == 'cookie':
             app.response.set_cookie(m['n'], m['v'])
+        elif m['m'] in ('rmhook', 'addhook'):
+            name = 'after_request' if m['after'] else 'before_request'
+            tag = 'hookA' if m['after'] else 'hookB'
+            funcs = app._verif_hooks[name]
+            if m['m'] == 'rmhook':
+                if m['j'] in funcs:
+                    app.remove_hook(name, funcs[m['j']])
+            else:
+                def marker(tag=tag, j=m['j']):
+                    rec.ev.append([tag, j])
+                funcs[m['j']] = marker
+                app.add_hook(name, marker)
     res = h['res']
     if res['k'] == 'ret':
         return build(res['o'], rec)
@@ -250,10 +295,13 @@ def build_app(case, rec):
             rec.ev.append([tag, i] if i is not None else [tag])
             return run_prog(app, h, rec)
         return f
+    app._verif_hooks = {'before_request': {}, 'after_request': {}}
     for i, h in enumerate(case['before']):
-        app.add_hook('before_request', mk('hookB', i, h))
+        f = app._verif_hooks['before_request'][i] = mk('hookB', i, h)
+        app.add_hook('before_request', f)
     for j, h in enumerate(case['after']):
-        app.add_hook('after_request', mk('hookA', j, h))
+        f = app._verif_hooks['after_request'][j] = mk('hookA', j, h)
+        app.add_hook('after_request', f)
     rule = '/h/a/<x:path>'
     if rt['k'] == 'ok':
         app.route(rule, method=rt.get('reg', method), callback=mk('handler', None, rt['h']))
@@ -547,6 +595,10 @@ def enc_mut(m):
         return [1] + S(m['n']) + S(m['v'])
     if m['m'] == 'add':
         return [2] + S(m['n']) + S(m['v'])
+    if m['m'] == 'rmhook':
+        return [4, int(m['after']), m['j']]
+    if m['m'] == 'addhook':
+        return [5, int(m['after']), m['j']]
     return [3] + S(m['n']) + S(cookie_rendered(m['n'], m['v']))
 
 
@@ -782,9 +834,28 @@ def oracle(case, obs):
     elif idx['routed']:
         return 'routing happened although before_request hook %d failed' % first_fail
     ha = [e[1] for e in ev if e[0] == 'hookA']
-    rev = list(range(na - 1, -1, -1))
-    first_fail_a = next((k for k, j in enumerate(rev) if fails(case['after'][j])), None)
-    want_a = rev if first_fail_a is None else rev[:first_fail_a + 1]
+    # the after_request list when its emit starts: reverse registration order, edited by the
+    # add_hook / remove_hook calls of what ran before (edits during an emit never change that emit)
+    rt = case['routing']
+    progs = {('hookB', i): h for i, h in enumerate(case['before'])}
+    if rt['k'] == 'ok':
+        progs.update({('rhook', i): h for i, h in enumerate(rt['rhooks'])})
+        progs[('handler',)] = rt['h']
+    elif rt['k'] == '404' and rt.get('partial') is not None:
+        progs[('handler',)] = rt['partial']
+    alist = list(range(na - 1, -1, -1))
+    for e in ev:
+        if e[0] == 'hookA':
+            break
+        if e[0] not in ('hookB', 'rhook', 'handler'):
+            continue
+        for m in progs.get(tuple(e[:2]), {}).get('muts', []):
+            if m.get('m') == 'rmhook' and m['after'] and m['j'] in alist:
+                alist.remove(m['j'])
+            elif m.get('m') == 'addhook' and m['after']:
+                alist.insert(0, m['j'])
+    first_fail_a = next((k for k, j in enumerate(alist) if j < na and fails(case['after'][j])), None)
+    want_a = alist if first_fail_a is None else alist[:first_fail_a + 1]
     if ha != want_a:
         return 'after_request hooks ran as %s, expected %s' % (ha, want_a)
     if ha:
@@ -820,9 +891,11 @@ LINES = ['200 OK', '404 Brain not found', '299 x', ' 201 Created ', '204 none', 
 
 
 class Ctx:
-    def __init__(self, rng):
+    def __init__(self, rng, edits=True):
         self.rng = rng
         self.next_id = 0
+        self.edits = edits          # may programs call add_hook / remove_hook?
+        self.next_hook = 10
 
     def oid(self):
         self.next_id += 1
@@ -915,13 +988,26 @@ def g_out(c, depth, allow=None):
         fk = rng.choice(['str', 'bytes'])
         items = [g_item(c, depth, fk) for _ in range(n)]
         as_list = rng.random() < 0.3 and items and all(i['k'] == 'yield' for i in items)
-        return dict(k='iter', id=c.oid(), close=(not as_list) and rng.random() < 0.6, items=items, list=bool(as_list))
+        box = None if as_list or rng.random() < 0.7 else rng.choice(['gen', 'iter'])
+        return dict(k='iter', id=c.oid(), close=(not as_list) and rng.random() < 0.6, items=items, list=bool(as_list),
+                    box=box)
     e = rng.random() < 0.5
     return dict(k='http', err=e, r=g_resp(c, depth, e))
 
 
-def g_muts(rng):
+def g_hook_edit(c):
+    rng = c.rng
+    after = rng.random() < 0.5
+    if rng.random() < 0.7:
+        return dict(m='rmhook', after=after, j=rng.choice([0, 0, 1, 2]))
+    c.next_hook += 1
+    return dict(m='addhook', after=after, j=c.next_hook)
+
+
+def g_muts(rng, c=None):
     out = []
+    if c is not None and c.edits and rng.random() < 0.12:
+        out.append(g_hook_edit(c))
     for _ in range(rng.choice([0, 0, 0, 1, 2])):
         r = rng.random()
         if r < 0.3:
@@ -947,7 +1033,7 @@ def g_hprog(c, depth, p_fail=0.3):
         res = dict(k='raise_http', err=e, r=g_resp(c, depth, e))
     else:
         res = dict(k='ret', o=g_out(c, depth))
-    return dict(muts=g_muts(rng), res=res)
+    return dict(muts=g_muts(rng, c), res=res)
 
 
 def g_hook(c):
@@ -960,11 +1046,11 @@ def g_hook(c):
     else:
         e = rng.random() < 0.5
         res = dict(k='raise_http', err=e, r=g_resp(c, 1, e))
-    return dict(muts=g_muts(rng) if rng.random() < 0.3 else [], res=res)
+    return dict(muts=g_muts(rng, c) if rng.random() < 0.4 else [], res=res)
 
 
-def g_case(rng):
-    c = Ctx(rng)
+def g_case(rng, edits=True):
+    c = Ctx(rng, edits)
     method = rng.choice(VERBS) if rng.random() < 0.6 else rng.choice(['GET', 'HEAD'])
     depth = rng.choice([0, 1, 1, 2, 2, 3])
     r = rng.random()
@@ -1023,10 +1109,10 @@ def _resp(status, body, err=False, headers=(), cookies=()):
                                           cookies=[list(c) for c in cookies], body=body))
 
 
-def _iter(oid, items, close=True, lst=False):
+def _iter(oid, items, close=True, lst=False, box=None):
     return dict(k='iter', id=oid, close=close, items=[dict(k='yield', o=i) if 'k' in i and i['k'] not in
                                                      ('raise_exc', 'raise_http', 'yield') else i for i in items],
-                list=lst)
+                list=lst, box=box)
 
 
 OK_HOOK = dict(muts=[], res=dict(k='ret', o=dict(k='falsy', v='none')))
@@ -1080,6 +1166,31 @@ def corpus():
     cs.append(ret(_resp(204, hello, headers=[('Content-Type', 'text/plain'), ('X-A', 'v')])))
     cs.append(ret(_resp(304, hello, headers=[('Content-Length', '5'), ('Allow', 'GET'), ('X-A', 'v')])))
     cs.append(ret(_resp(200, hello, headers=[('Content-Length', '1000')])))
+    # a container with close() whose __iter__ returns another object (seeded change: close looked up on iter(out))
+    for box in ('gen', 'iter'):
+        for m in ('GET', 'HEAD'):
+            cs.append(ret(_iter(1, [_str(''), _str('a'), _str('b')], box=box), method=m))
+            cs.append(ret(_iter(1, [dict(k='falsy', v='none'), dict(k='bytes', b=[1, 2]), dict(k='bytes', b=[3])], box=box),
+                          method=m))
+            cs.append(ret(_resp(200, _iter(1, [_str('x')], box=box)), method=m))
+    # hooks that edit the hook lists while they run (seeded change: emit iterates the live list)
+    def hk(*muts, fail=False):
+        return dict(muts=list(muts), res=dict(k='raise_exc') if fail else dict(k='ret', o=dict(k='falsy', v='none')))
+    rm = lambda after, j: dict(m='rmhook', after=after, j=j)
+    add = lambda after, j: dict(m='addhook', after=after, j=j)
+    for rt in (None, dict(k='404', partial=None)):
+        kw = {} if rt is None else dict(routing=rt)
+        cs.append(ret(hello, before=[hk(rm(False, 0)), hk(), hk()], after=[hk(), hk(), hk()], **kw))     # one-shot before hook
+        cs.append(ret(hello, before=[hk(), hk(rm(False, 0)), hk()], after=[hk()], **kw))                 # removes an earlier one
+        cs.append(ret(hello, before=[hk(rm(False, 2)), hk(), hk()], **kw))                               # removes a later one
+        cs.append(ret(hello, before=[hk(add(False, 11)), hk()], **kw))                                   # adds one
+        cs.append(ret(hello, before=[hk()], after=[hk(), hk(), hk(rm(True, 2))], **kw))                  # one-shot after hook
+        cs.append(ret(hello, after=[hk(), hk(rm(True, 2)), hk()], **kw))                                 # after hook removes an earlier-called one
+        cs.append(ret(hello, after=[hk(rm(True, 1)), hk(), hk(rm(True, 0))], **kw))
+        cs.append(ret(hello, after=[hk(), hk(add(True, 12))], **kw))
+        cs.append(ret(hello, before=[hk(rm(True, 1)), hk(add(True, 13))], after=[hk(), hk(), hk()], **kw))   # before hooks edit the after list
+    cs.append(ret(hello, after=[hk(), hk(), hk()],
+                  routing=dict(k='ok', rhooks=[], h=dict(muts=[rm(True, 0), add(True, 14)], res=dict(k='ret', o=hello)))))
     for a in STATUS_ARGS:
         cs.append(dict(kind='status', arg=a))
     return cs
